@@ -277,6 +277,25 @@ func (a *vAgent) conn(peerAddr string) *PFCPConn {
 	return v.(*PFCPConn)
 }
 
+// quiesced runs f while holding every association's own handlerMu: the message handlers and the
+// teardown take that lock, so everything they did before is visible to f and everything they do later
+// is ordered after f (the race detector sees no edge through UDP sockets on Linux).
+func (a *vAgent) quiesced(f func()) {
+	var held []*PFCPConn
+	a.iface.node.pConns.Range(func(k, v interface{}) bool {
+		c := v.(*PFCPConn)
+		c.handlerMu.Lock()
+		held = append(held, c)
+		return true
+	})
+	defer func() {
+		for _, c := range held {
+			c.handlerMu.Unlock()
+		}
+	}()
+	f()
+}
+
 func (a *vAgent) nConns() int {
 	n := 0
 	a.iface.node.pConns.Range(func(k, v interface{}) bool { n++; return true })
